@@ -79,7 +79,7 @@ func addr(off uint32) []byte { // (p & 0xfff8) as the base of an 8-byte access w
 
 func (g *gen) stmt(depth int) []byte {
 	r := g.rng
-	k := r.Intn(16)
+	k := r.Intn(17)
 	if depth > 0 && (k == 4 || k == 10) {
 		k = 0
 	}
@@ -145,6 +145,11 @@ func (g *gen) stmt(depth int) []byte {
 			addr(0), c.LocalGet(lB), c.B(0x3c), c.MemArg(0, off+1))
 	case 13:
 		return g.trapPath()
+	case 14:
+		g.shape["memory.init"]++
+		// 8 bytes of the PASSIVE data segment 1 copied to (p & 0xfff8), then b ^= load of them
+		return c.Cat(addr(0), c.I32Const(int32(r.Intn(9))), c.I32Const(8), c.B(0xfc, 8, 1, 0),
+			c.LocalGet(lB), addr(0), c.B(0x29), c.MemArg(3, 0), c.B(0x85), c.LocalSet(lB))
 	default:
 		return g.sgsStmt()
 	}
@@ -266,7 +271,9 @@ func assemble(p *Prog, g *gen, body []byte) []byte {
 	grower := c.Code(nil, c.LocalGet(0), c.B(0x40, 0))
 	peek := c.Code(nil, c.LocalGet(0), c.B(0x29), c.MemArg(3, 0))
 	m.Codes = [][]byte{helper, run, spin, grower, peek}
-	m.Datas = [][]byte{c.Cat(c.B(0), c.I32Const(16), c.B(0x0b), c.U32(8), c.B(1, 2, 3, 4, 5, 6, 7, byte(id)))}
+	m.Datas = [][]byte{c.Cat(c.B(0), c.I32Const(16), c.B(0x0b), c.U32(8), c.B(1, 2, 3, 4, 5, 6, 7, byte(id))),
+		c.Cat(c.B(1), c.U32(16), c.B(0x51, 0x52, 0x53, 0x54, 0x55, 0x56, 0x57, 0x58, 0x59, 0x5a, 0x5b, 0x5c, 0x5d, 0x5e, 0x5f, byte(id)))} // 1: passive
+	m.DataCount = true
 	// custom sections: a name section and an opaque one
 	names := c.Cat(c.Name("name"),
 		c.B(0), c.U32(uint32(len(c.Name(fmt.Sprintf("prog%d", id))))), c.Name(fmt.Sprintf("prog%d", id)),
@@ -288,6 +295,7 @@ type Cfg struct {
 	Custom      bool   `json:"custom"`
 	Listener    bool   `json:"listener"`
 	CloseOnDone bool   `json:"closeondone"`
+	Decline     bool   `json:"decline"` // with Listener: the factory is installed but returns nil for every function
 }
 
 var cacheModes = []string{"none", "mem", "dircold", "dirwarm", "memshared-ab", "memshared-ba", "dirshared-ab", "dirshared-ba"}
@@ -320,7 +328,7 @@ func (cf Cfg) vec() [7]int {
 
 func randCfg(rng *c.Rng) Cfg {
 	al := rng.Intn(3)
-	return Cfg{cacheModes[rng.Intn(len(cacheModes))], rng.Bool(), al > 0, al == 2, rng.Bool(), rng.Bool(), rng.Bool(), rng.Bool()}
+	return Cfg{cacheModes[rng.Intn(len(cacheModes))], rng.Bool(), al > 0, al == 2, rng.Bool(), rng.Bool(), rng.Bool(), rng.Bool(), rng.Intn(3) == 0}
 }
 
 // lattice returns rows covering every pair of factor values (greedy), padded with random rows.
@@ -409,25 +417,42 @@ type sink struct {
 }
 type sinkKey struct{}
 
-type recListener struct{}
+// recListener belongs to the execution whose factory created it (owner): events are counted THERE, so that listeners
+// served from another runtime's compilation (a shared cache) show up as missing events. Listeners created for the
+// limits/identity probes have no owner and count into the sink of the calling context.
+type recListener struct{ owner *sink }
 
-func (recListener) Before(ctx context.Context, _ api.Module, _ api.FunctionDefinition, _ []uint64, _ experimental.StackIterator) {
-	if s, ok := ctx.Value(sinkKey{}).(*sink); ok {
+func (l recListener) to(ctx context.Context) *sink {
+	if l.owner != nil {
+		return l.owner
+	}
+	s, _ := ctx.Value(sinkKey{}).(*sink)
+	return s
+}
+func (l recListener) Before(ctx context.Context, _ api.Module, _ api.FunctionDefinition, _ []uint64, _ experimental.StackIterator) {
+	if s := l.to(ctx); s != nil {
 		s.before++
 	}
 }
-func (recListener) After(ctx context.Context, _ api.Module, _ api.FunctionDefinition, _ []uint64) {
-	if s, ok := ctx.Value(sinkKey{}).(*sink); ok {
+func (l recListener) After(ctx context.Context, _ api.Module, _ api.FunctionDefinition, _ []uint64) {
+	if s := l.to(ctx); s != nil {
 		s.after++
 	}
 }
-func (recListener) Abort(ctx context.Context, _ api.Module, _ api.FunctionDefinition, _ error) {
-	if s, ok := ctx.Value(sinkKey{}).(*sink); ok {
+func (l recListener) Abort(ctx context.Context, _ api.Module, _ api.FunctionDefinition, _ error) {
+	if s := l.to(ctx); s != nil {
 		s.abort++
 	}
 }
 
 var factory = experimental.FunctionListenerFactoryFunc(func(api.FunctionDefinition) experimental.FunctionListener { return recListener{} })
+
+func factoryFor(sk *sink) experimental.FunctionListenerFactory {
+	return experimental.FunctionListenerFactoryFunc(func(api.FunctionDefinition) experimental.FunctionListener { return recListener{owner: sk} })
+}
+
+// decliningFactory is installed but listens to nothing (what a scoped logging factory does for most modules)
+var decliningFactory = experimental.FunctionListenerFactoryFunc(func(api.FunctionDefinition) experimental.FunctionListener { return nil })
 
 type sliceMem struct{ buf []byte }
 
@@ -533,8 +558,12 @@ func (x *rt) exec(ctx context.Context, p *Prog, e Exec) (out Exec) {
 	sk := &sink{}
 	cf := x.cfg
 	hctx := ctx
+	fac := factoryFor(sk)
+	if cf.Decline {
+		fac = decliningFactory
+	}
 	if cf.Listener { // listeners are attached to the host functions as well
-		hctx = experimental.WithFunctionListenerFactory(ctx, factory)
+		hctx = experimental.WithFunctionListenerFactory(ctx, fac)
 	}
 	_, err := x.r.NewHostModuleBuilder("env").NewFunctionBuilder().
 		WithGoFunction(api.GoFunc(func(_ context.Context, stack []uint64) {
@@ -557,7 +586,7 @@ func (x *rt) exec(ctx context.Context, p *Prog, e Exec) (out Exec) {
 	}
 	cctx := ctx
 	if cf.Listener {
-		cctx = experimental.WithFunctionListenerFactory(ctx, factory)
+		cctx = experimental.WithFunctionListenerFactory(ctx, fac)
 	}
 	compiled, err := x.r.CompileModule(cctx, p.Bin)
 	if err != nil {
